@@ -160,34 +160,7 @@ func checkC18(p *Prog, r *Report) {
 			}
 			r.Floor("aol-exported-string-keys", nKeys, 1)
 		}
-		// the string decoder itself: Split with the separator handed in
-		for name, want := range map[string]string{"DecodeFromString": "strings.Split"} {
-			fn := sp.Func(name)
-			if fn == nil {
-				r.Fail(kp("AGREE", "compkey."+name+"#anchor"), "anchor", compkeyPkg, name+" not found")
-				continue
-			}
-			var hit ssa.CallInstruction
-			for _, cs := range callSites(fn) {
-				if cs.Name == want {
-					hit = cs.Instr
-				}
-			}
-			okSep := false
-			if hit != nil && len(hit.Common().Args) == 2 {
-				if prm, isP := hit.Common().Args[1].(*ssa.Parameter); isP && prm == fn.Params[len(fn.Params)-1] || name == "DecodeFromString" && hit.Common().Args[1] == ssa.Value(fn.Params[1]) {
-					okSep = true
-				}
-			}
-			r.Check(hit != nil && okSep, kp("AGREE", "compkey."+name+"#"+want+"(·, sep)"), "the string form joins / splits the components with exactly the separator handed in", p.FnPos(fn),
-				want+" with the separator parameter", name+" does not call "+want+" with its separator parameter")
-			// … and what is split is the encoded string itself: a case fold, a trim or any other rewrite before the split changes
-			// components the typed key compares byte for byte (two topic names that differ in case become one key)
-			if name == "DecodeFromString" && hit != nil {
-				r.Check(hit.Common().Args[0] == ssa.Value(fn.Params[0]), kp("ORIGIN", "compkey.DecodeFromString#splits-the-encoded-string-itself"), "the decoder splits the string it was given, untransformed", p.Pos(hit.Pos()),
-					"strings.Split(encoded, sep)", "the string handed to strings.Split is not the encoded parameter itself (it was rewritten first): components that differ only in what the rewrite folds decode to the same key")
-			}
-		}
+		checkStringDecoder(p, r, kp, sp)
 	}
 }
 
@@ -745,6 +718,88 @@ func checkTypedKey(p *Prog, r *Report, kp func(string, string) string, kt *types
 	}
 	r.Check(strings.Join(scomps, ",") == strings.Join(comps, ","), kp("AGREE", tn+"#Strings=ByteSlices-order"), "the string form lists the same fields in the same order as the byte form", tn, fmt.Sprint(scomps), fmt.Sprintf("Strings: %v, ByteSlices: %v", scomps, comps))
 	checkFrom(p, r, kp, kt, tn, comps, kindOf, "FromStrings")
+	checkTypedKeyAcceptsStored(p, r, kp, kt)
+}
+
+// checkTypedKeyAcceptsStored: the decoders of a typed key refuse nothing a message can store — for each string component, the
+// upper bound that a successful FromByteSlices / FromStrings puts on its length is at least the limit ValidateBasic of the
+// messages puts on the field of the same name (a name of exactly the maximum length must come back out of the store).
+func checkTypedKeyAcceptsStored(p *Prog, r *Report, kp func(string, string) string, kt *types.Named) {
+	tn := shortPkg(kt.String())
+	st, ok := kt.Underlying().(*types.Struct)
+	if !ok {
+		return
+	}
+	msgMax := func(field string) (int, string) {
+		best, who := -1, ""
+		for _, m := range p.Msgs() {
+			if m.Obj().Pkg() == nil || kt.Obj().Pkg() == nil || m.Obj().Pkg().Path() != kt.Obj().Pkg().Path() {
+				continue
+			}
+			if v, ok := msgFieldMax(p, m, field); ok && v > best {
+				best, who = v, m.Obj().Name()
+			}
+		}
+		return best, who
+	}
+	for _, mn := range []string{"FromByteSlices", "FromStrings"} {
+		fn := p.MethodOf(kt, mn)
+		if fn == nil || fn.Blocks == nil || len(fn.Params) < 2 {
+			continue
+		}
+		o := NewOrigin(p, fn)
+		fa := NewFacts(p, fn, o)
+		// component index of each string field: the store k.F = string(param[i]) / param[i]
+		compOf := map[string]*Term{}
+		for _, b := range fn.Blocks {
+			for _, in := range b.Instrs {
+				sto, ok := in.(*ssa.Store)
+				if !ok {
+					continue
+				}
+				fad, ok := sto.Addr.(*ssa.FieldAddr)
+				if !ok {
+					continue
+				}
+				fname := fieldAddrName(fad)
+				isStr := false
+				for i := 0; i < st.NumFields(); i++ {
+					if st.Field(i).Name() == fname && st.Field(i).Type().String() == "string" {
+						isStr = true
+					}
+				}
+				if !isStr {
+					continue
+				}
+				o.Of(sto.Val).Walk(func(x *Term) {
+					if (x.Op == "index" || x.Op == "indexaddr") && len(x.Args) == 2 && x.Args[0].Op == "param" && x.Args[1].Op == "const" {
+						compOf[fname] = x
+					}
+				})
+			}
+		}
+		for _, fname := range keysOfSt(compOf) {
+			lim, who := msgMax(fname)
+			if lim < 0 {
+				continue
+			}
+			comp := compOf[fname]
+			if comp.Op == "indexaddr" {
+				comp = &Term{Op: "index", Args: comp.Args}
+			}
+			for i, ret := range successReturns(fn) {
+				b := lenBoundAt(p, fa, ret, comp)
+				if b < 0 {
+					// the element may be spelled as a load of its address
+					b = lenBoundAt(p, fa, ret, &Term{Op: "deref", Args: []*Term{{Op: "indexaddr", Args: comp.Args}}})
+				}
+				r.Check(b < 0 || b >= int64(lim), kp("AGREE", fmt.Sprintf("%s#%s#return%d#accepts-stored:%s", tn, mn, i, fname)),
+					"a typed key's decoder refuses no component a message can store (what was written must be readable: listings, export and import decode every key)", p.Pos(ret.Pos()),
+					fmt.Sprintf("len(%s) ≤ %d on success; %s admits up to %d", fname, b, who, lim),
+					fmt.Sprintf("%s.%s succeeds only for len(%s) ≤ %d, but %s.ValidateBasic admits %d bytes: an entry with a %s of that length is stored and can never be decoded again (listings fail, the export panics)", tn, mn, fname, b, who, lim, fname))
+			}
+		}
+	}
 }
 
 // checkFrom analyses FromByteSlices / FromStrings of a key type.
@@ -1591,6 +1646,51 @@ func checkCompkeyEncoder(p *Prog, r *Report, kp func(string, string) string, sp 
 			if !found {
 				r.Fail(kp("ORIGIN", "compkey."+name+"#calls-encode"), name+" delegates to the encoder", p.FnPos(fn), "no call to the encoder found")
 			}
+		}
+	}
+}
+
+
+func fieldAddrName(fa *ssa.FieldAddr) string {
+	t := fa.X.Type().Underlying()
+	if pt, ok := t.(*types.Pointer); ok {
+		t = pt.Elem().Underlying()
+	}
+	if st, ok := t.(*types.Struct); ok && fa.Field < st.NumFields() {
+		return st.Field(fa.Field).Name()
+	}
+	return ""
+}
+
+
+// checkStringDecoder (C18-D4b; shared with C13: two topic names folded into one key share their listing and counters).
+func checkStringDecoder(p *Prog, r *Report, kp func(string, string) string, sp *ssa.Package) {
+	// the string decoder itself: Split with the separator handed in
+	for name, want := range map[string]string{"DecodeFromString": "strings.Split"} {
+		fn := sp.Func(name)
+		if fn == nil {
+			r.Fail(kp("AGREE", "compkey."+name+"#anchor"), "anchor", compkeyPkg, name+" not found")
+			continue
+		}
+		var hit ssa.CallInstruction
+		for _, cs := range callSites(fn) {
+			if cs.Name == want {
+				hit = cs.Instr
+			}
+		}
+		okSep := false
+		if hit != nil && len(hit.Common().Args) == 2 {
+			if prm, isP := hit.Common().Args[1].(*ssa.Parameter); isP && prm == fn.Params[len(fn.Params)-1] || name == "DecodeFromString" && hit.Common().Args[1] == ssa.Value(fn.Params[1]) {
+				okSep = true
+			}
+		}
+		r.Check(hit != nil && okSep, kp("AGREE", "compkey."+name+"#"+want+"(·, sep)"), "the string form joins / splits the components with exactly the separator handed in", p.FnPos(fn),
+			want+" with the separator parameter", name+" does not call "+want+" with its separator parameter")
+		// … and what is split is the encoded string itself: a case fold, a trim or any other rewrite before the split changes
+		// components the typed key compares byte for byte (two topic names that differ in case become one key)
+		if name == "DecodeFromString" && hit != nil {
+			r.Check(hit.Common().Args[0] == ssa.Value(fn.Params[0]), kp("ORIGIN", "compkey.DecodeFromString#splits-the-encoded-string-itself"), "the decoder splits the string it was given, untransformed", p.Pos(hit.Pos()),
+				"strings.Split(encoded, sep)", "the string handed to strings.Split is not the encoded parameter itself (it was rewritten first): components that differ only in what the rewrite folds decode to the same key")
 		}
 	}
 }
